@@ -294,8 +294,37 @@ fn sequence_id_reuse(rep: &Report) {
     }
 }
 
+/// However the assembler was constructed (new, Default, finite and unbounded timeouts), a sequence whose fragments arrive
+/// without delay, with a `cleanup_expired` sweep before each, is assembled.
+fn constructors(rep: &Report) {
+    let makers: Vec<(&str, Box<dyn Fn() -> FragmentAssembler>)> = vec![
+        ("new()", Box::new(FragmentAssembler::new)),
+        ("default()", Box::new(FragmentAssembler::default)),
+        ("with_timeout(30 s)", Box::new(|| FragmentAssembler::with_timeout(Duration::from_secs(30)))),
+        ("with_timeout(1 year)", Box::new(|| FragmentAssembler::with_timeout(Duration::from_secs(365 * 24 * 3600)))),
+        ("with_timeout(Duration::MAX)", Box::new(|| FragmentAssembler::with_timeout(Duration::MAX))),
+        ("with_timeout(u64::MAX s)", Box::new(|| FragmentAssembler::with_timeout(Duration::from_secs(u64::MAX)))),
+    ];
+    for (label, mk) in &makers {
+        for order in [[3u64, 2, 1], [1, 2, 3], [2, 3, 1]] {
+            rep.add("evaluations", 1);
+            let mut a = mk();
+            let mut results = vec![];
+            let mut swept = 0;
+            for &id in &order {
+                swept += a.cleanup_expired();
+                results.push(if id == 3 { a.start_fragment(9u64, 3, None, vec![3]) } else { a.add_fragment(9u64, id, vec![id as u8]) }.is_some());
+            }
+            if results != vec![false, false, true] || swept != 0 || a.pending_count() != 0 {
+                rep.violation("an assembler drops or fails to complete a sequence whose fragments arrive without delay", json!({"constructed_with": label, "arrival_order": order, "completed_at": results, "dropped_by_cleanup": swept}));
+            }
+        }
+    }
+}
+
 pub fn run(rep: &Report) -> serde_json::Value {
     let thorough = rep.thorough();
+    constructors(rep);
     sequence_id_reuse(rep);
     let timed = timed_expiry(rep);
     rep.set_extra("timed_expiry", timed);
